@@ -419,7 +419,10 @@ def run(F, R, tier):
                 if cname == "all-set":
                     r4.require(k is not None and SR.pure(k.args[1], ("param", "o_kid")), (fn, "kid-source"), "kid is not `options.kid` when configured")
                 else:
-                    r4.require(k is not None and has_call(k.args[1], "VerificationMethod::id"), (fn, "kid-source"), "kid is not the resolved method's id when options.kid is unset: %s" % (sym.fmt(sym.term(k.args[1])) if k else None))
+                    ids_ = [x for x in sym.subterms(sym.term(k.args[1])) if isinstance(x, tuple) and x[:1] == ("call",) and x[1].endswith("VerificationMethod::id") and SR.derives(x, METHOD)] if k is not None else []
+                    KCONV = re.compile(r"(to_string|to_owned|into|from|as_str|as_ref|clone|into_string|into_url|deref|borrow)$")
+                    # the whole id of the method that signs (DID and fragment — the method may belong to another DID), in its string form
+                    r4.require(k is not None and any(SR.pure(k.args[1], x, conv=KCONV) for x in ids_), (fn, "kid-source"), "kid is not the resolved method's id when options.kid is unset: %s" % (sym.fmt(sym.term(k.args[1])) if k else None))
                 # typ
                 t = one("set_typ")
                 r4.require(t is not None and ((cname == "all-set" and SR.pure(t.args[1], ("param", "o_typ"))) or (cname != "all-set" and t.args[1] == "JWT")), (fn, "typ-default"), "typ is not options.typ else \"JWT\" (%s options)" % cname)
